@@ -13,12 +13,15 @@ def units(tier):
     out += [u for u in C18.units(tier) if u[3] in ("readonly_call", "et_device_info", "dt_device_info", "es_device_info")]
     out += C04.protocol_units(tier)
     out += contract_units(SIDECARS, ["goodwe.inverter.Inverter._decode"], tier)
+    # the callbacks hand every received byte string to the validator: that it raises nothing but its two documented
+    # exceptions is part of "nothing but InverterError escapes" (clause tagged C09 in the validator contracts)
+    out += contract_units(C04.SIDECARS, C04.VALIDATORS, tier) + C04.binding_units(tier)
     return out
 
 
 def replay(vc, unit):
     n = vc["name"]
-    if "Protocol" in n.split("/")[0]:
+    if "Protocol" in n.split("/")[0] or n.startswith("binding:"):
         return replay_protocol(vc, unit)
     return replay_api(vc, unit)
 
